@@ -927,12 +927,16 @@ def ml_gmm_m_step(
     # (Equation 9.25 of Bishop, "Pattern recognition and machine learning", 2006)
     # ...but we use the "computational formula for the variance", i.e.
     #  var = 1/n * sum (P(x-mean)(x-mean))
-    #      = 1/n * sum (Pxx) - mean^2
+    #      = 1/n * (sum (Pxx) - 2 * mean * sum (Px) + n * mean^2)
+    # which reduces to 1/n * sum (Pxx) - mean^2 only when `mean` is the data
+    # mean sum (Px) / n, i.e. not when the means are kept fixed.
     if update_variances:
         logger.debug("Update variances.")
-        machine.variances = statistics.sum_pxx / thresholded_n[
-            :, None
-        ] - np.power(machine.means, 2)
+        machine.variances = (
+            statistics.sum_pxx
+            - 2 * machine.means * statistics.sum_px
+            + statistics.n[:, None] * np.power(machine.means, 2)
+        ) / thresholded_n[:, None]
 
 
 def map_gmm_m_step(
